@@ -59,6 +59,66 @@ Fixpoint pick (k : nat) (fs : list finfo) (a : list (option nat)) : list finfo :
   | _, _ => []
   end.
 
+(* ======================================================================== 7z FilesInfo properties *)
+(* SevenZipReader._parse_files_info: the property records of the FilesInfo section in archive order.
+   Only EmptyStream (0x0E), Names (0x11) and WinAttributes (0x15) have an effect; EmptyFile (0x0F),
+   Anti (0x10), Dummy (0x19), the time stamps, StartPos and every unknown id are skipped over
+   (`seek(end_pos)`).  A later record of the same kind replaces / overlays the earlier one. *)
+Inductive fprop :=
+| PEmptyStream (bits : list bool)                 (* _read_boolean_vector(num_files) *)
+| PNames (external : bool) (names : list str)     (* external byte <> 0: Bad7zFile *)
+| PAttrs (defined : list bool) (vals : list N)    (* uint32 per defined entry, in order *)
+| PIgnored (id : N).                              (* EmptyFile / Anti / Dummy / CTime / ... *)
+
+Record fstate := { st_empty : list bool; st_names : list str; st_attrs : list N }.
+
+Definition finit (n : nat) : fstate :=
+  {| st_empty := repeat false n; st_names := repeat [] n; st_attrs := repeat 0%N n |}.
+
+(* attributes[i] = next value if defined[i], else unchanged *)
+Fixpoint fill_attrs (defined : list bool) (vals : list N) (prev : list N) : list N :=
+  match prev with
+  | [] => []
+  | a :: prev' =>
+      match defined with
+      | true :: d' => match vals with v :: vals' => v :: fill_attrs d' vals' prev' | [] => a :: fill_attrs d' [] prev' end
+      | false :: d' => a :: fill_attrs d' vals prev'
+      | [] => a :: prev'
+      end
+  end.
+
+Definition fstep (st : fstate) (p : fprop) : option fstate :=
+  match p with
+  | PEmptyStream bits => Some {| st_empty := bits; st_names := st_names st; st_attrs := st_attrs st |}
+  | PNames true _ => None
+  | PNames false names => Some {| st_empty := st_empty st; st_names := names; st_attrs := st_attrs st |}
+  | PAttrs d v => Some {| st_empty := st_empty st; st_names := st_names st; st_attrs := fill_attrs d v (st_attrs st) |}
+  | PIgnored _ => Some st
+  end.
+
+Fixpoint fparse (st : fstate) (ps : list fprop) : option fstate :=
+  match ps with
+  | [] => Some st
+  | p :: r => match fstep st p with Some st' => fparse st' r | None => None end
+  end.
+
+(* the arguments handed to _build_file_list: entry i = (names[i], empty_streams[i], attributes[i]) *)
+Fixpoint mk_entries (n : nat) (i : nat) (st : fstate) : list entry :=
+  match n with
+  | O => []
+  | S n' => {| e_name := nth i (st_names st) []; e_empty := nth i (st_empty st) false;
+               e_attr := nth i (st_attrs st) 0%N |} :: mk_entries n' (S i) st
+  end.
+
+Definition parse_files_info (n : nat) (ps : list fprop) : option (list entry) :=
+  match fparse (finit n) ps with Some st => Some (mk_entries n 0 st) | None => None end.
+
+Definition is_ignored (p : fprop) : bool := match p with PIgnored _ => true | _ => false end.
+
+(* a header without its stream-less entries *)
+Definition drop_streamless (h : hdr) : hdr :=
+  {| h_entries := filter (fun e => negb (e_empty e)) (h_entries h); h_sizes := h_sizes h; h_streams := h_streams h |}.
+
 (* ======================================================================== file-system events *)
 Inductive ev :=
 | Mkdirs (p : str)      (* os.makedirs(p, exist_ok=True) *)
